@@ -6,6 +6,7 @@
      kmip/pie/client.py            ProxyKmipClient.<op> that    -> returned data | KmipOperationFailure | other exception
    The model mirrors the code AS IT IS (see ClientProofs.v for the clauses that fail). *)
 From PK Require Import Base.Bytes.
+From PKGen Require Import Enums.
 From Coq Require Import ZArith List Bool.
 Import ListNotations.
 Open Scope Z_scope.
@@ -260,6 +261,16 @@ Definition dict_fields (o : op) : list (fname * fname) :=
           (DCryptoUsageMask, PCryptoUsageMask); (DLeaseTime, PLeaseTime)]
   end.
 
+(* check(): the integer mask of the payload becomes the list of CryptographicUsageMask members set in it *)
+Definition mask_members (m : Z) : val :=
+  VList (map VInt (filter (fun b => negb (Z.land m b =? 0)) EV_CryptographicUsageMask)).
+Definition check_norm (d : attrs) : option attrs :=
+  match getattr DCryptoUsageMask d with
+  | Some (VInt m) => Some (map (fun x => match fst x with DCryptoUsageMask => (fst x, mask_members m) | _ => x end) d)
+  | Some VNone | None => Some d
+  | Some _ => None                                        (* `mask & enumeration.value` on a non-integer *)
+  end.
+
 Definition proxy_dict (o : op) (items : list ritem) : pout :=
   match items with
   | [] => PExc
@@ -272,7 +283,14 @@ Definition proxy_dict (o : op) (items : list ritem) : pout :=
           end
       | Some p =>
           match copy_fields p (dict_fields o) with
-          | Some d => PDict (ri_status it) (ri_reason it) (ri_msg it) d
+          | Some d =>
+              match o with
+              | OCheck => match check_norm d with
+                          | Some d' => PDict (ri_status it) (ri_reason it) (ri_msg it) d'
+                          | None => PExc
+                          end
+              | _ => PDict (ri_status it) (ri_reason it) (ri_msg it) d
+              end
           | None => PExc
           end
       end
@@ -477,6 +495,7 @@ Definition wf_payload (o : op) (p : attrs) : bool :=
   | OGet => not_none (getattr PSecret p)
   | OMac => not_none (getattr PUniqueIdentifier p) && not_none (getattr PMacData p)
   | OGetAttributeList => match spec_return o p with Some _ => true | None => false end
+  | OCheck => match getattr PCryptoUsageMask p with Some (VInt _) | Some VNone => true | _ => false end
   | _ => true
   end.
 
